@@ -217,7 +217,7 @@ def run_case(spec):
 
 def strategy():
     from hypothesis import strategies as st
-    WORDS = ['pear', 'x', 'abc', 'Total', 'n/a', 'yes']
+    WORDS = ['pear', 'x', 'abc', 'Total', 'n/a', 'yes', '#12', '#tag', '# of items']   # a text that starts with # is a text, not an error value
     num = st.one_of(st.integers(-50, 50), st.integers(-200, 200).map(lambda k: k / 4).filter(lambda x: x != int(x)),
                     st.integers(1, 9))
     base = st.one_of(num, num, num, st.sampled_from(WORDS), st.sampled_from(['12', '3.5', '007']), st.booleans(),
